@@ -40,6 +40,7 @@ type event struct {
 	stack [][]byte
 	alt   [][]byte
 	cond  []int
+	els   [][]byte
 	sidx  int
 	oidx  int
 }
@@ -61,7 +62,7 @@ func cpAll(s [][]byte) [][]byte {
 }
 
 func (t *tracer) on(kind byte, s *interpreter.State) {
-	t.events = append(t.events, event{kind: kind, stack: cpAll(s.DataStack), alt: cpAll(s.AltStack), cond: append([]int{}, s.CondStack...), sidx: s.ScriptIdx, oidx: s.OpcodeIdx})
+	t.events = append(t.events, event{kind: kind, stack: cpAll(s.DataStack), alt: cpAll(s.AltStack), cond: append([]int{}, s.CondStack...), els: cpAll(s.ElseStack), sidx: s.ScriptIdx, oidx: s.OpcodeIdx})
 	if !t.scribble {
 		return
 	}
@@ -352,6 +353,7 @@ func check(ctx *pbt.Ctx, c Case) error {
 	}
 	// (iv) consecutive step snapshots are consistent with the instruction between them
 	var steps []libexec.Step
+	var stepEvents []*event
 	var beforeStep *event
 	for i := range rec.events {
 		e := &rec.events[i]
@@ -366,6 +368,7 @@ func check(ctx *pbt.Ctx, c Case) error {
 			beforeStep = e
 		case 's':
 			steps = append(steps, libexec.Step{Stack: e.stack, Alt: e.alt})
+			stepEvents = append(stepEvents, e)
 		}
 	}
 	nSteps := strings.Count(seq, "s")
@@ -389,6 +392,48 @@ func check(ctx *pbt.Ctx, c Case) error {
 		}
 		if err := libexec.CompareTraces(steps, plain.Err == nil, r); err != nil {
 			return fmt.Errorf("step snapshots inconsistent with the executed instruction: %v; %s", err, id)
+		}
+		// the conditional state in the snapshots must be the one the rules define after the same
+		// instruction: one entry per open conditional, outermost first; the branch is executing
+		// exactly when every enclosing condition holds; after genesis the else stack says, per open
+		// conditional, whether its OP_ELSE was seen
+		for i := 0; i < len(stepEvents) && i < len(r.Trace); i++ {
+			e, want := stepEvents[i], r.Trace[i]
+			last := i+1 < len(r.Trace) && r.Trace[i+1].Script != want.Script || i == len(r.Trace)-1
+			if last {
+				continue // a script just ended: both sides start the next one with no open conditional
+			}
+			if len(e.cond) != len(want.Cond) {
+				return fmt.Errorf("step %d (%s): snapshot has %d open conditionals %v, the rules have %d %v; %s", i, want.String(), len(e.cond), e.cond, len(want.Cond), want.Cond, id)
+			}
+			executing := true
+			for _, v := range want.Cond {
+				executing = executing && v
+			}
+			// the library's own reading of its cond stack: the branch executes when the innermost
+			// entry is "true" (1) and - after genesis, where a conditional nested in a dead branch
+			// is recorded as 0 rather than "skip" (2) - no entry is "false" (0)
+			libExec := len(e.cond) == 0 || e.cond[len(e.cond)-1] == 1
+			if flags.Has(interp.FlagAfterGenesis) {
+				for _, v := range e.cond {
+					if v == 0 {
+						libExec = false
+					}
+				}
+			}
+			if libExec != executing {
+				return fmt.Errorf("step %d (%s): snapshot cond stack %v means executing=%v, the rules say %v (%v); %s", i, want.String(), e.cond, libExec, executing, want.Cond, id)
+			}
+			if flags.Has(interp.FlagAfterGenesis) {
+				if len(e.els) != len(want.Else) {
+					return fmt.Errorf("step %d (%s): snapshot else stack has %d entries %x, the rules have %v; %s", i, want.String(), len(e.els), e.els, want.Else, id)
+				}
+				for k := range want.Else {
+					if interp.CastToBool(e.els[k]) != want.Else[k] {
+						return fmt.Errorf("step %d (%s): snapshot else stack %x (outermost first) does not match the rules' %v; %s", i, want.String(), e.els, want.Else, id)
+					}
+				}
+			}
 		}
 	}
 	return nil
